@@ -90,6 +90,44 @@ class Fn:
         self.coqname, self.params, self.ret, self.pure, self.static = coqname, params, ret, pure, static
 
 
+class Prepass(ast.NodeTransformer):
+    """behaviour-preserving desugaring done before translation:
+       `return a if c else b`      ->  if c: return a / else: return b
+       `x, y = u, v` (u, v names that are not assigned by the statement)  ->  x = u; y = v"""
+
+    def visit_Return(self, node):
+        self.generic_visit(node)
+        if isinstance(node.value, ast.IfExp):
+            e = node.value
+            new = ast.If(test=e.test, body=[self.visit_Return(ast.Return(value=e.body))], orelse=[self.visit_Return(ast.Return(value=e.orelse))])
+            return ast.copy_location(new, node)
+        return node
+
+    def visit_Assign(self, node):
+        self.generic_visit(node)
+        if len(node.targets) == 1 and isinstance(node.targets[0], ast.Tuple) and isinstance(node.value, ast.Tuple) \
+                and len(node.targets[0].elts) == len(node.value.elts) \
+                and all(isinstance(t, ast.Name) for t in node.targets[0].elts) and all(isinstance(v, ast.Name) for v in node.value.elts):
+            tnames = {t.id for t in node.targets[0].elts}
+            if len(tnames) == len(node.targets[0].elts) and not (tnames & {v.id for v in node.value.elts}):
+                return [ast.copy_location(ast.Assign(targets=[ast.Name(id=t.id, ctx=ast.Store())], value=v), node)
+                        for t, v in zip(node.targets[0].elts, node.value.elts)]
+        return node
+
+
+_PREPASS = {}
+
+
+def prepass(fn):
+    """memoised per source node: loop functions are shared between the two translations of one method by node identity"""
+    import copy
+    if id(fn) not in _PREPASS:
+        new = Prepass().visit(copy.deepcopy(fn))
+        ast.fix_missing_locations(new)
+        _PREPASS[id(fn)] = (fn, new)
+    return _PREPASS[id(fn)][1]
+
+
 class Translator:
     def __init__(self, fname):
         self.fname = fname
@@ -797,6 +835,7 @@ class Translator:
     def _method(self, clsname, fn, assume=None, suffix=""):
         info = CLASSES[clsname]
         selfty = info["ty"]
+        fn = prepass(fn)
         env = {"__class__": (clsname, "class")}
         params = []
         args = fn.args
